@@ -14,6 +14,17 @@ FW_RULE = ("cases = random validated machine sets x call histories drawn from on
            "A case is non-trivial when %s; distinct = distinct wire encodings.")
 
 PROPS = {
+    "C06": {
+        "sub": "c06",
+        "n": {"quick": 60, "thorough": 3000},
+        "coq_sample": {"quick": 60, "thorough": 400},
+        "rule": ("first, rand's f32 draw is checked to be (word >> 9) / 2^23 for all 2^23 values of the top 23 bits (varied low bits); then cases = a generated "
+                 "transition vector (1-8 targets incl. both pseudo-states; sums from 2e-20 to exactly 1; probabilities at the resolution limit of the draw and of f32; "
+                 "0.1+0.2+0.7-style sums) for which the real State::sample_state is driven by a counting RNG through ALL 2^23 draw values; the exact cumulative "
+                 "per-target counts must equal the model's closed-form integer thresholds, and each count must be within 2 draws of probability * 2^23. "
+                 "Non-trivial = a validated vector (exhaustively enumerated)."),
+        "timeout": 3000,
+    },
     "C13": {
         "sub": "c13",
         "n": {"quick": 1500, "thorough": 60000},
